@@ -1854,6 +1854,17 @@ func overlapCase(e *ev.Env, c *ev.Case, msgsA, msgsB []fmsg) {
 		}
 	}
 	app := fiber.New(fiber.Config{ReadBufferSize: 16384})
+	app.Get("/issue/:who", func(c fiber.Ctx) error {
+		ms := msgsA
+		if c.Params("who") == "b" {
+			ms = msgsB
+		}
+		r := c.Redirect()
+		for _, m := range ms {
+			r.With(m.Key, m.Value, m.Level)
+		}
+		return r.To("/b")
+	})
 	app.Get("/park", func(c fiber.Ctx) error {
 		close(entered)
 		<-release
@@ -1865,12 +1876,29 @@ func overlapCase(e *ev.Env, c *ev.Case, msgsA, msgsB []fmsg) {
 		return c.SendString("b")
 	})
 	w := drive.NewWire(app)
-	req := func(path string, ms []fmsg) []byte {
-		return append(append([]byte("GET "+path+" HTTP/1.1\r\nHost: flash.example.com\r\nCookie: "+fiber.FlashCookieName+"="), mpFlash(ms)...), "\r\n\r\n"...)
+	// the cookies are the ones the server itself issues for the two sets (whatever its encoding)
+	issued := func(who string) ([]byte, bool) {
+		var out []byte
+		if guard(e, c, "flash", "overlap issue "+who, func() {
+			out, _ = w.Serve([]byte("GET /issue/"+who+" HTTP/1.1\r\nHost: flash.example.com\r\n\r\n"), nil)
+		}) {
+			return nil, false
+		}
+		v, ok := rawFlashValue(out)
+		return v, ok && rawBytesClass(v) == ""
+	}
+	cookieA, okA := issued("a")
+	cookieB, okB := issued("b")
+	if !okA || !okB {
+		e.Stat("overlap_cookie_cannot_travel", 1)
+		return
+	}
+	req := func(path string, cookie []byte) []byte {
+		return append(append([]byte("GET "+path+" HTTP/1.1\r\nHost: flash.example.com\r\nCookie: "+fiber.FlashCookieName+"="), cookie...), "\r\n\r\n"...)
 	}
 	doneA := make(chan bool, 1)
 	go func() {
-		doneA <- e.Guard(c, "flash", "overlap A", func() { _, _ = w.Serve(req("/park", msgsA), nil) })
+		doneA <- e.Guard(c, "flash", "overlap A", func() { _, _ = w.Serve(req("/park", cookieA), nil) })
 	}()
 	select {
 	case <-entered:
@@ -1880,7 +1908,7 @@ func overlapCase(e *ev.Env, c *ev.Case, msgsA, msgsB []fmsg) {
 		e.Stat("overlap_a_not_parked", 1)
 		return
 	}
-	pB := e.Guard(c, "flash", "overlap B", func() { _, _ = w.Serve(req("/b", msgsB), nil) })
+	pB := e.Guard(c, "flash", "overlap B", func() { _, _ = w.Serve(req("/b", cookieB), nil) })
 	close(release)
 	pA := <-doneA
 	e.Eval(2)
